@@ -31,6 +31,7 @@ type realReplay struct {
 	Source  string // test source injected as <pkg>/zz_vcheck_replay_test.go
 	Witness map[string]symex.WVal
 	Output  string
+	Models  int  // number of models tried
 	Failed  bool // the generated test failed on the real code: the counterexample is real
 }
 
@@ -52,17 +53,22 @@ func replayOnRealCode(r symex.Result) *realReplay {
 		return nil
 	}
 	var rr *realReplay
-	for _, bound := range []int64{12, 1000, 0} {
-		w, _, ok := symex.Witness(o, bound, 10*time.Second)
+	// small models first; a model that does not fail on the real code (the failing obligation may rest on an
+	// abstraction, e.g. an uncontracted callee) is excluded and the solver is asked for another one, a few times
+	var tried []map[string]symex.WVal
+	for _, bound := range []int64{12, 12, 12, 12, 12, 1000, 0} {
+		w, _, ok := symex.Witness(o, bound, 10*time.Second, tried)
 		if !ok {
 			continue
 		}
+		tried = append(tried, w)
 		pkg, src := gen(w)
 		if src == "" {
 			continue
 		}
 		rr = &realReplay{Pkg: pkg, Source: src, Witness: w}
 		rr.Output, rr.Failed = runInjectedTest(*flagRepo, pkg, src)
+		rr.Models = len(tried)
 		if rr.Failed {
 			return rr
 		}
